@@ -297,6 +297,46 @@ Additions for data.py (Plate.merge and the one-line helpers of ScreenBase / Plat
                       e.g. an id array that must not hold a NaN) and is bound with `dor`.  Aliasing is not modelled, as for
                       cfg["fields"]: a second reference to an object along the chain goes stale (Plate.merge's `other.screen`).
                       Without the key all these targets are refused as before.
+Additions for cli/argument_parsing.py, introspection.py and the get_args() of the wrappers (the argument-handling glue; C18 / C06 / C04 / C03):
+  cfg["str_consts"]   type name: a string constant in expression position is the list of its code points at that type
+                      (`"true"` -> `([116; 114; 117; 101] : str)`).  Without the key a string constant is refused as before (docstrings
+                      and raise messages are never evaluated).
+  cfg["eqb_membership"]  True: `x in L` / `x not in L` with L : list T, x : T and T a type with an equality test declared in cfg["eqb"]:
+                      `existsb (eqb x) L` (Python compares x with the items from the left).  Any other membership test falls through
+                      to the integer / dict / set forms.
+  `kdict K V`         in cfg["vars"] / hole types: a dict whose keys have the type NAME K (one word; Z, or a name with a test in cfg["eqb"]) and
+                      values of type V: insertion-ordered association list `list (K * V)`, operations type-directed on a value of that type:
+                        {}                       the empty list (where a `kdict` is needed)
+                        {k1: v1, ..}             only with cfg["dict_literal_type"] = `kdict K V` (every non-empty dict literal of the function
+                                                 has that type): items in source order, keys / values coerced to K / V, successive PyRt.kdict_set
+                        d[k] = v                 PyRt.kdict_set (an existing key keeps its place and takes the value; a new key goes last); the
+                                                 value is evaluated before the key
+                        d[k]                     PyRt.kdict_get, KeyError = Err cfg["key_error"] (refused when that tag is not declared)
+                        d.get(k, e)              d a bound variable: PyRt.kdict_get_default (e is evaluated, as an argument, before the lookup)
+                        {K: V for a, b in d.items()}   d a bound variable: the items in the dict's order, key before value, kdict_set into an
+                                                 empty dict; the monad's fold when key / value may raise (first exception aborts), else fold_left
+                        for a, b in d.items()    d a bound variable: a loop over the list of (key, value) pairs
+                        truth value              of a `kdict`: not empty; of an `opt kdict`: false for None and for {}
+                        x or {}                  only with cfg["kdict_or_empty"]: x when it is a (non-empty) dict, else an empty dict - as a VALUE
+                                                 (PyRt.opt_or_empty; aliasing with the old object is not modelled)
+  cfg["unpack_error"] tag: `(a, b, ..) = e` with e a LIST of the names' declared type: `match e with [a; b; ..] => rest | _ => Err tag end`
+                      (ValueError: not enough / too many values to unpack).  Default monad only.
+  cfg["except_tags"]  {exception class name: [error tags]}: `try: B except E [as n]: H` with E a declared class name and H ENDING IN A RAISE:
+                          dor (vs) <- res_catch [tags] (B; Ok (vs)) (H); rest
+                      PyRt.res_catch runs H exactly when B ends in an Err whose tag is listed for E (any other Err passes through); vs = the
+                      variables B assigns that are bound before the try or assigned by a plain / tuple assignment at its top level.  The
+                      configuration TRUSTS the tag lists (which primitives' errors are instances of E).  The name n is not bound (a read is
+                      refused); continue / break / return anywhere, raise / try inside B, else / finally, several handlers are refused.
+                      Takes precedence over cfg["try_prims"].
+  cfg["if_expr"]      True: `a if c else b`: the test first, then `if c then a else b`; neither branch may raise (a hoisted call would be
+                      evaluated unconditionally); the branches must have one type, possibly after a declared coercion (cfg["coerce"], e.g. of
+                      the literal None: `("none", T, term)`).
+  cfg["truthy"]       {type name: Gallina predicate}: the truth value of an `opt T` value, T a declared opaque type, is false for None and the
+                      predicate (bool(o)) otherwise - instead of the default "an opaque object is true".
+  cfg["loop_return"]  True: a `return e` inside a `for` loop that is a TOP-LEVEL statement of the function is rewritten before translation
+                      (class LoopReturn) into `loop_ret = None; for ..: .. loop_ret = e; break ..; if loop_ret is not None: return loop_ret`
+                      with loop_ret a fresh variable of type `opt T`, T the return type (a returned None is `Some None`).  At most one such
+                      loop; refused when the loop has a `break` of its own, an else clause, or the return sits in a nested loop / with / try.
 """
 import ast
 
